@@ -1,5 +1,7 @@
-(* C12 - fingerprints (the canonical-form half of C12 lives with the schema-JSON model). *)
-From AvroV Require Import Base Varint Rabin CRC64 RabinP.
+(* C12 - canonical form and fingerprints.  Model/SchemaJson.v: canonical_form (the implementation's pass
+   over its own serialised JSON); Spec/PCF.v: the normalisation rules of the specification on the schema. *)
+From AvroV Require Import Base Varint Schema Lit SchemaJson PCF Rabin CRC64 RabinP.
+From Coq Require Import String.
 Open Scope N_scope.
 
 (* The table-driven 64-bit Rabin fingerprint equals CRC-64-AVRO computed bit by bit from the
@@ -22,3 +24,45 @@ Proof. reflexivity. Qed.
 (* the specification's fingerprint of the schema "int" (canonical form "\"int\""): 0x7275d51a3f395c8f *)
 Example C12_spec_int : crc64_avro [34;105;110;116;34] = 0x7275d51a3f395c8f.
 Proof. vm_compute. reflexivity. Qed.
+
+(* ---- canonical form ---- *)
+(* On the primitive types and on references the canonical form is the specification's. *)
+Definition pcf_leaves : list schema :=
+  [SNull; SBoolean; SInt; SLong; SFloat; SDouble; SBytes; SString; SRef (mkName (Some (K "a.b")) (K "C")); SRef (mkName None (K "C"))].
+Theorem C12_pcf_leaves :
+  forall s, In s pcf_leaves -> canonical_form 4 s = POk (spec_canonical_form s).
+Proof.
+  intros s H. unfold pcf_leaves in H. cbn [In] in H.
+  repeat (destruct H as [<-|H]; [vm_compute; reflexivity|]). destruct H.
+Qed.
+
+(* The full statement is FALSE of the model (known findings F16, F17): a logical type keeps its object
+   wrapper and, for a decimal, precision and scale; a field's "order" (and any attribute named like
+   a schema key) stays in the canonical form. *)
+Example C12_pcf_logical_refuted :
+  (canonical_form 4 SDate = POk (K "{""type"":""int""}")) /\ (spec_canonical_form SDate = K """int""") /\
+  (canonical_form 4 (SDecimal 4 1 DBytes) = POk (K "{""type"":""bytes"",""precision"":4,""scale"":1}")) /\
+  (spec_canonical_form (SDecimal 4 1 DBytes) = K """bytes""").
+Proof. repeat split; vm_compute; reflexivity. Qed.
+
+Example C12_pcf_order_refuted :
+  let s := SRecord (mkName None (K "R")) None None
+             [(mkFmeta (K "a") None [] None [(K "order", JStr (K "descending"))], SInt)] [] in
+  canonical_form 6 s = POk (K "{""name"":""R"",""type"":""record"",""fields"":[{""name"":""a"",""type"":""int"",""order"":""descending""}]}") /\
+  spec_canonical_form s = K "{""name"":""R"",""type"":""record"",""fields"":[{""name"":""a"",""type"":""int""}]}".
+Proof. split; vm_compute; reflexivity. Qed.
+
+(* non-vacuity: full names, attribute order, stripped doc / aliases / default / custom attribute, a type
+   spelled out once and referred to by name afterwards - model and specification agree *)
+Example C12_pcf_examples :
+  let e := SEnum (mkName (Some (K "other")) (K "E")) (Some [mkName None (K "Old")]) (Some (K "d")) [K "A"; K "B"] (Some (K "A")) [(K "x", JInt 1)] in
+  let f := SFixed (mkFixed (mkName (Some (K "ns")) (K "F")) None (Some (K "doc")) 16 []) in
+  let s := SRecord (mkName (Some (K "ns")) (K "R")) None (Some (K "doc"))
+             [(mkFmeta (K "a") (Some (K "fd")) [K "aa"] (Some (JInt 3)) [], SLong);
+              (mkFmeta (K "e") None [] None [], SUnion [SNull; e]);
+              (mkFmeta (K "f") None [] None [], SArray f []);
+              (mkFmeta (K "g") None [] None [], SMap (SRef (mkName (Some (K "other")) (K "E"))) [])] [(K "zz", JBool true)] in
+  canonical_form 16 s = POk (spec_canonical_form s) /\
+  spec_canonical_form s =
+    K "{""name"":""ns.R"",""type"":""record"",""fields"":[{""name"":""a"",""type"":""long""},{""name"":""e"",""type"":[""null"",{""name"":""other.E"",""type"":""enum"",""symbols"":[""A"",""B""]}]},{""name"":""f"",""type"":{""type"":""array"",""items"":{""name"":""ns.F"",""type"":""fixed"",""size"":16}}},{""name"":""g"",""type"":{""type"":""map"",""values"":""other.E""}}]}".
+Proof. split; vm_compute; reflexivity. Qed.
